@@ -150,6 +150,37 @@ def err_class(e):
     return "type"
 
 
+STATEMENT_TIMEOUT = 20      # seconds; generated programs take milliseconds
+
+
+class _Timeout(BaseException):
+    """not an Exception: klongpy's `except Exception: pass` around compiled paths must not swallow it"""
+
+
+class _alarm:
+    def __init__(self, seconds):
+        self.seconds = seconds
+        self.armed = False
+
+    def __enter__(self):
+        import signal
+        import threading
+        if threading.current_thread() is threading.main_thread():
+            def fire(signum, frame):
+                raise _Timeout()
+            self.old = signal.signal(signal.SIGALRM, fire)
+            signal.setitimer(signal.ITIMER_REAL, self.seconds)
+            self.armed = True
+        return self
+
+    def __exit__(self, *a):
+        import signal
+        if self.armed:
+            signal.setitimer(signal.ITIMER_REAL, 0)
+            signal.signal(signal.SIGALRM, self.old)
+        return False
+
+
 class Real:
     """one real interpreter with the two Python callables of the grammar installed"""
 
@@ -198,14 +229,18 @@ class Real:
         return f"depth={self.depth()} log={log} vars={vars_}"
 
     def run(self, text):
-        """-> (outcome, digest); outcome = 'ok <wire>' | 'err <class>'"""
+        """-> (outcome, digest); outcome = 'ok <wire>' | 'err <class>'.  Every statement runs under an
+        alarm: a change that turns a bounded recursion into an endless loop must end as `err timeout`."""
         self.events.clear()
         try:
-            r = self.k(text)
+            with _alarm(STATEMENT_TIMEOUT):
+                r = self.k(text)
             try:
                 out = "ok " + ast_wire(r)
             except Unsupported as e:
                 out = f"ok ?{e}"
+        except _Timeout:
+            out = "err timeout"
         except RecursionError:
             out = "err fuel"
         except Exception as e:  # noqa: BLE001 - the error class is the observable
@@ -551,11 +586,65 @@ REC_TEMPLATES = [
 ]
 
 
+def _dec(p):
+    return ["op2", "-", ["p", p], ["int", 1]]
+
+
+# .f in TAIL position with two or three arguments, a later argument mentioning a parameter that an
+# earlier argument replaces: the arguments must all be evaluated in the calling activation
+TAIL_TEMPLATES = [
+    (2, ["cond", ["p", "x"], ["self", [_dec("x"), ["op2", "+", ["p", "y"], ["p", "x"]]]], ["p", "y"]]),           # sum
+    (2, ["cond", ["p", "x"], ["self", [_dec("x"), ["op2", "*", ["p", "y"], ["p", "x"]]]], ["p", "y"]]),           # factorial
+    (2, ["cond", ["p", "x"], ["self", [_dec("x"), ["op2", ",", ["p", "x"], ["p", "y"]]]], ["p", "y"]]),           # countdown list
+    (3, ["cond", ["p", "x"], ["self", [_dec("x"), ["p", "z"], ["op2", "+", ["p", "y"], ["p", "z"]]]], ["p", "y"]]),   # Fibonacci
+    (3, ["cond", ["p", "x"], ["self", [_dec("x"), ["p", "z"], ["p", "y"]]], ["op2", ",", ["p", "y"], ["p", "z"]]]),   # rotate
+    (3, ["cond", ["op2", "=", ["p", "x"], ["int", 0]], ["op2", "-", ["p", "y"], ["p", "z"]],
+         ["self", [_dec("x"), ["op2", "+", ["p", "x"], ["p", "z"]], ["op2", "*", ["p", "x"], ["p", "y"]]]]]),
+]
+
+
+def _tail_case(rng):
+    """(n, body, locals): a bounded self-recursion through .f in tail position"""
+    locals_ = []
+    if rng.random() < 0.45:
+        n, body = rng.choice(TAIL_TEMPLATES)
+        return n, body, locals_
+    n = rng.choice([2, 2, 3])
+    # first argument counts x down; the others are small expressions over ALL parameters
+    args = [_dec("x")]
+    for _ in range(n - 1):
+        a = gen_int(rng, n, rng.choice([1, 1, 2]), [], leafy=0.2, globs=False)
+        if '["p", "x"]' not in json.dumps(a) and rng.random() < 0.7:
+            a = ["op2", rng.choice("+-"), a, ["p", rng.choice(PARAMS[:n])]]
+        args.append(a)
+    rec = ["self", args]
+    base = gen_int(rng, n, 1, [], globs=False)
+    shape = rng.random()
+    if shape < 0.5:
+        body = ["cond", ["p", "x"], rec, base]
+    elif shape < 0.7:
+        body = ["cond", ["op2", "=", ["p", "x"], ["int", 0]], base, rec]
+    elif shape < 0.85:
+        # the tail of a program, after an assignment to a declared local
+        locals_ = ["a"]
+        body = ["seq", [["asg", "a", ["op2", "+", ["p", "x"], ["p", "y"]]],
+                        ["cond", ["p", "x"], ["self", [_dec("x")] + [["op2", "+", ["g", "a"], q] for q in args[1:]]], ["g", "a"]]]]
+    else:
+        # nested conditionals: the self-call is the selected branch of the selected branch
+        body = ["cond", ["p", "x"], ["cond", ["op2", "=", ["p", "y"], ["p", "y"]], rec, ["int", -1]], base]
+    return n, body, locals_
+
+
 def case_rec(rng):
     """recursion through .f against recursion through the function's own name"""
     stmts = list(PRELUDE)
     locals_ = []
-    if rng.random() < 0.5:
+    tail = rng.random() < 0.4
+    if tail:
+        n, body, locals_ = _tail_case(rng)
+        if locals_:
+            stmts += ["a::1000", "b::2000"]
+    elif rng.random() < 0.5:
         n, body = rng.choice(REC_TEMPLATES)
         if rng.random() < 0.5:
             # random combination around the recursive call
@@ -583,12 +672,27 @@ def case_rec(rng):
     stmts.append("fs::{" + decl + render(body) + "}")
     stmts.append("fr::{" + decl + render(rename_self(body, "fr")) + "}")
     pairs = []
-    for _ in range(rng.randrange(1, 4)):
+    ncalls = rng.randrange(1, 4)
+    if tail:
+        stmts += ["vs::fs", "vr::fr"]
+        if n >= 2:
+            stmts += [f"ps::fs(;{';'.join(['1'] * (n - 1))})", f"pr::fr(;{';'.join(['1'] * (n - 1))})"]
+    ndefs = len(stmts)
+    for _ in range(ncalls):
         args = [rng.randrange(0, 5)] + [rng.choice(SMALL) for _ in range(n - 1)]
         al = ";".join(lit_text(a) for a in args)
+        form = rng.choice(["direct", "direct", "var", "at", "proj"]) if tail else "direct"
+        if form == "var":
+            a, b = f"vs({al})", f"vr({al})"
+        elif form == "at" and all(q >= 0 for q in args):
+            a, b = "fs@" + lit_text(args), "fr@" + lit_text(args)
+        elif form == "proj" and n >= 2:
+            a, b = f"ps({lit_text(args[0])})", f"pr({lit_text(args[0])})"
+        else:
+            a, b = f"fs({al})", f"fr({al})"
         pairs.append([len(stmts), len(stmts) + 1])
-        stmts += [f"fs({al})", f"fr({al})"]
-    return dict(kind="rec", stmts=stmts, meta=dict(pairs=pairs, locals=locals_, ndefs=len(stmts) - 2 * len(pairs)))
+        stmts += [a, b]
+    return dict(kind="rec", stmts=stmts, meta=dict(pairs=pairs, locals=locals_, ndefs=ndefs, tail=tail))
 
 
 PROJ_BODIES_INT = {2: [["op2", "+", ["op2", "*", ["int", 10], ["p", "x"]], ["p", "y"]],
@@ -1049,7 +1153,7 @@ def oracle_rec(ctx, case, obs):
             ctx.bump("oracle-skip")
             return
         frame_check(ctx, case, a, [], "recursion through .f")
-        key = "dotf:locals" if m["locals"] else "subst:dotf"
+        key = "dotf:tail-args" if m.get("tail") else ("dotf:locals" if m["locals"] else "subst:dotf")
         if a["out"] != b["out"] or [ast_wire(e) for e in a["events"]] != [ast_wire(e) for e in b["events"]]:
             ctx.oracle_fail(key, dict(case=_js(case), text=a["text"]), b["out"], a["out"],
                             "recursion through .f differs from recursion through the function's own name")
@@ -1391,6 +1495,9 @@ WITNESSES = [
     ("proj:multi-step", ["f::{(100*x)+(10*y)+z}", "g::f(1;;)", "h::g(;3)", "h(2)"], {3: 123}),
     ("proj:list-arg", ["f::{x,y}", "g::f(;[1 2])", "g(3)"], {2: [3, 1, 2]}),
     ("dotf:locals", ["f::{[a];a::x;:[x;.f(x-1);0];a}", "f(3)"], {1: 3}),
+    ("dotf:tail-args", ["s::{:[x;.f(x-1;y+x);y]}", "s(4;0)", "fib::{:[x;.f(x-1;z;y+z);y]}", "fib(10;0;1)",
+                        "rot::{:[x;.f(x-1;z;y);y,z]}", "rot(3;1;2)", "s@[4 0]", "q::s(;0)", "q(4)"],
+     {1: 10, 3: 55, 5: [2, 1], 6: 10, 8: 10}),
     ("cond:monad-operand", ["-:[1;5;6]", "#:[0;[1];[2 2]]", "cf::{-:[x;y;z]}", "cf(0;5;6)"], {0: -5, 1: 2, 3: -6}),
     ("subst:definition-rejected", ["dbl::{x*2}", "g::{x,y}", "f::{dbl(:[x;5;6])}", "f(0)", "h::{g([1 2];x)}", "h(3)"],
      {3: 12, 5: [1, 2, 3]}),
@@ -1404,7 +1511,7 @@ def oracle_witness(ctx, case, obs):
         o = obs[int(k)]
         if o["out"] != "ok " + _wire_of(v):
             ctx.oracle_fail(case["meta"]["key"], dict(case=_js(case), text=o["text"]), v, o["out"],
-                            "witness of a repaired defect fails again")
+                            "a fixed witness program of the property gives another value than the property prescribes")
             return
     ctx.bump("oracle:witness")
 
